@@ -2,6 +2,7 @@
 import json, random
 import vlib, dlvlib, scripts as S
 
+LEVEL = "fault_enumeration"
 hx = S.hx
 CUTS = [("between", None), ("header", 1), ("long-length", 30), ("body", 600), ("between-frames", 350)]
 FAULTS = ["eof", "reset+wbreak", "eof+wbreak"]     # orderly close; reset (reads and writes fail); close, then writes fail too
